@@ -1169,7 +1169,8 @@ impl InputState<'_> {
             } else {
                 break;
             }
-            let handler = subtrie.get(evt).unwrap();
+            // `evt` may not continue the sequence(s) bound under this prefix
+            let handler = subtrie.get(evt).unwrap_or(None);
             if let Some(handler) = handler {
                 let cmd = match handler {
                     EventHandler::Simple(cmd) => Some(cmd.clone()),
